@@ -696,6 +696,13 @@ func (c *fctx) stmt(s ast.Stmt) bool {
 			}
 			c.expr(r)
 		}
+		// a return with a lock taken in this function and neither released nor
+		// covered by a deferred Unlock: the lock leaks on this path
+		for _, h := range c.held {
+			if !h.deferred {
+				c.emit(Fact{Kind: "unbalanced", St: h.St, Fld: h.Fld, Why: "still held at a return statement"}, s.Pos())
+			}
+		}
 		return true
 	case *ast.BranchStmt:
 		return s.Tok != token.FALLTHROUGH
